@@ -112,6 +112,8 @@ fn sorted_pairs_i(rng: &mut Rng, n: u64, f: &mut dyn FnMut(&mut Rng) -> i64) -> 
 pub fn gen_int_ty(rng: &mut Rng, extremes: bool) -> J {
     let n = if rng.chance(1, 12) { 0 } else { 1 + rng.below(3) };
     if rng.chance(1, 10) { return json!(["int", [[i64::MIN, i64::MAX]]]); }
+    // one interval whose number of values sits at the capacity of an interval set (128): expanding it into its values is a boundary case
+    if rng.chance(1, 16) { let a = rng.range(-3, 3); return json!(["int", [[a, a + *rng.pick(&[126i64, 127, 128])]]]); }
     json!(["int", sorted_pairs_i(rng, n, &mut |r| int_bound(r, extremes))])
 }
 pub fn gen_float_ty(rng: &mut Rng, extremes: bool) -> J {
